@@ -2,7 +2,7 @@
 from py import vlib
 from py.props import optim_common as oc
 
-GENS = ['Optim']
+GENS = ['Optim', 'Engine']
 RULE = ('(a) op sequences on the real optimizers incl. secure_mode, comparing the number of parameter-shaped torch.normal calls per op with '
         "the generated state machine's ENoise events; (b) numeric one-step cases (variant x secure x sigma incl. 0 x C x B x reduction x "
         'user generator) checked directly: call count, std, shape, (clipped sum + noise)/B, reproducibility, step/parameter independence; '
@@ -24,6 +24,10 @@ def numeric_cases(ctx, n):
         for _ in range(1 if not ctx.thorough else 6):
             out.append({'stat': True, 'seed': r.randint(0, 10**6), 'secure': secure, 'nm': r.choice([0.5, 1.0, 2.5]), 'C': r.choice([0.1, 1.0, 3.0]),
                         'variant': 'flat', 'red': 'sum'})
+    for secure in (False, True):
+        for user in (False, True):
+            for poisson in (False, True):
+                out.append({'enggen': True, 'secure': secure, 'user': user, 'poisson': poisson, 'variant': 'engine', 'nm': 1.0})
     return out
 
 
@@ -31,7 +35,7 @@ def run_numeric(ctx, n):
     cases = numeric_cases(ctx, n)
     res = vlib.run_impl('noise_props.py', {'cases': cases}, timeout=3600)['results']
     for c, r in zip(cases, res):
-        ctx.case(c, nontrivial=c['nm'] != 0, kind=('stat' if c.get('stat') else 'numeric') + '/%s/secure=%s' % (c['variant'], c['secure']))
+        ctx.case(c, nontrivial=c['nm'] != 0, kind=('generator' if c.get('enggen') else ('stat' if c.get('stat') else 'numeric')) + '/%s/secure=%s' % (c['variant'], c['secure']))
         if r['error']:
             ctx.fail('noise-harness-error', r['error'], c)
         for b in r['bad'][:1]:
